@@ -18,14 +18,14 @@ RULE = ("cases = generated designs K1-K7 and Repeat (K9) restricted to within-tr
         "judged fully, or refused; distinct = spec hashes")
 ASSUMPTIONS = ["reference model R (vlib/ref.py)", "a refusal is an Exception whose text contains 'not supported' or 'Unsupported'"]
 MINIMUMS = {"quick": {"returned_and_judged": 25, "refused": 40, "sequences_judged": 80, "primer_sequences_judged": 100},
-            "thorough": {"returned_and_judged": 600, "refused": 600, "sequences_judged": 1800, "primer_sequences_judged": 2000}}
+            "thorough": {"returned_and_judged": 87, "refused": 140, "sequences_judged": 280, "primer_sequences_judged": 350}}
 CASE_TIMEOUT = 60
 MAX_INCONCLUSIVE_FRACTION = 0.5
 CLASSES = ["K1", "K2", "K3", "K4", "K5", "K6", "K6", "K7", "K9", "K3", "K2", "K12"]
 
 
 def cases(tier, seed):
-    n = 3300 if tier == "thorough" else 200
+    n = 1000 if tier == "thorough" else 200
     out = []
     i = 0
     for cls, sp in gen.stream(seed, n, CLASSES, "c29"):
